@@ -561,8 +561,9 @@ def plan_c08(tier, seed):
     runs += shards("std-release", "c08", 4, ["mode=free", "seed=%d" % seed, "iters=400000"], timeout=3400)
     runs += shards("tsan", "c08", 4, ["mode=free", "seed=%d" % (seed + 1), "iters=200000"], timeout=3400)
     for rate in ("", " -Zmiri-preemption-rate=0.05", " -Zmiri-preemption-rate=0.2"):
-        # (sized to finish in ~10 min on an idle machine: a loaded one must still make the 3400 s watchdog)
-        runs.append(Run("miri", "c08", ["mode=free", "seed=%d" % seed, "iters=8"], timeout=3400, miri_flags="-Zmiri-many-seeds=0..160" + rate))
+        # (sized to finish in a few minutes on an idle machine; on a machine that also ran a mutation
+        # round and the quick tier these three runs took ~55 min with 160 seeds x 8 histories)
+        runs.append(Run("miri", "c08", ["mode=free", "seed=%d" % seed, "iters=6"], timeout=6000, miri_flags="-Zmiri-many-seeds=0..96" + rate))
     return runs
 
 
